@@ -916,3 +916,81 @@ TASKS.update({
     'buffer.small_functions': (t_small, {'C03', 'C07', 'C08'}),
     'buffer.wait': (t_wait, {'C07'}),
 })
+
+
+# ------------------------------------------------------------------ property-level lemmas over the contracts
+def t_lemmas(E):
+    """InvNoLoss / InvBarrier for one arbitrary submitted value x (producer p), as an inductive invariant of the
+    transition system whose actions are exactly the per-function contracts discharged above (each action names
+    the obligations it rests on).  Pure SMT."""
+    stubs.install_all(E)
+    E.cur_func = 'buffer.lemmas'
+    E.props_default = frozenset({'C03', 'C07'})
+    NONE_, SCHED, INQ, PEND, INP, DONE_ = range(6)
+
+    def body():
+        def st(tag):
+            return dict(place=z3.Int('place_' + tag), flag=z3.Bool('flag_' + tag), u=z3.Int('u_' + tag),
+                        round=z3.Bool('round_' + tag), ok=z3.Int('ok_calls_' + tag))
+
+        def inv(s):
+            return z3.And(
+                s['place'] >= NONE_, s['place'] <= DONE_, z3.Or(s['u'] == 0, s['u'] == 1), s['ok'] >= 0,
+                z3.Implies(s['place'] == INQ, s['u'] == 1),                       # a queued producer blocks join()
+                z3.Implies(z3.Or(s['place'] == PEND, s['place'] == INP), z3.And(z3.Not(s['flag']), s['round'])),
+                z3.Implies(s['round'], z3.Not(s['flag'])),                        # flag_stays_clear_until_a_successful_call
+                z3.Implies(s['place'] == DONE_, s['ok'] >= 1),
+                z3.Implies(s['place'] != DONE_, s['ok'] == 0),
+                z3.Implies(z3.Or(s['place'] == NONE_, s['place'] == SCHED, s['place'] == DONE_), s['u'] == 0))
+
+        def same(s, t, but=()):
+            return z3.And(*[t[k] == s[k] for k in s if k not in but])
+        s, t = st('s'), st('t')
+        actions = {
+            # _put: clears_the_flag_then_schedules_exactly_one_thread_safe_put; submitters hand exactly one producer
+            'submit(_put)': z3.And(s['place'] == NONE_, t['place'] == SCHED, z3.Not(t['flag']), same(s, t, ('place', 'flag'))),
+            # the scheduled callback puts exactly this producer on the queue (FIFO per thread: stub)
+            'put_callback_runs': z3.And(s['place'] == SCHED, t['place'] == INQ, t['u'] == 1, same(s, t, ('place', 'u'))),
+            # _process_queue start: barrier.flag_cleared_before_the_first_producer_is_marked_done (one step)
+            'round_starts_with_x': z3.And(s['place'] == INQ, z3.Not(s['round']), t['place'] == PEND, z3.Not(t['flag']),
+                                          t['u'] == 0, t['round'], same(s, t, ('place', 'flag', 'u', 'round'))),
+            'round_starts_with_another': z3.And(z3.Not(s['round']), t['round'], z3.Not(t['flag']),
+                                                same(s, t, ('flag', 'round'))),
+            # _empty_queue: each taken producer is yielded and marked done; it becomes a pending load
+            'drained_into_the_round': z3.And(s['place'] == INQ, s['round'], t['place'] == PEND, t['u'] == 0,
+                                             same(s, t, ('place', 'u'))),
+            # the timed read returns x's producer: loaded inline, THEN marked done (counter obligation)
+            'late_producer_taken': z3.And(s['place'] == INQ, s['round'], t['place'] == PEND, same(s, t, ('place',))),
+            'load': z3.And(s['place'] == PEND, t['place'] == INP, z3.Or(t['u'] == s['u'], t['u'] == 0),
+                           same(s, t, ('place', 'u'))),
+            # call.every_dequeued_producer_is_loaded_before_the_function_runs + _run_func success <=> flag set,
+            # round_ends_only_after_a_successful_call
+            'successful_call': z3.And(s['round'], s['place'] != PEND,
+                                      z3.Implies(s['place'] == INP, z3.And(t['place'] == DONE_, t['ok'] == s['ok'] + 1, t['u'] == 0)),
+                                      z3.Implies(s['place'] != INP, z3.And(t['place'] == s['place'], t['ok'] == s['ok'], t['u'] == s['u'])),
+                                      t['flag'], z3.Not(t['round'])),
+            # failure keeps the inputs and the flag (inputs_unchanged, flag_set_exactly_on_success)
+            'failed_call': z3.And(s['round'], same(s, t)),
+            # any other submission (also from a foreign thread, at any instant) only CLEARS the flag
+            'other_submission': z3.And(z3.Not(t['flag']), same(s, t, ('flag',))),
+        }
+        init = st('i')
+        E.oblige('C03/lemma.init_establishes_InvNoLoss_InvBarrier',
+                 z3.Implies(z3.And(init['place'] == NONE_, init['u'] == 0, init['flag'], z3.Not(init['round']), init['ok'] == 0),
+                            inv(init)))
+        for name, a in actions.items():
+            E.oblige('C03/lemma.invariant_preserved_by[%s]' % name, z3.Implies(z3.And(inv(s), a), inv(t)))
+            # no-loss: no action forgets a submitted value; exactly-once: a delivered value is not delivered again
+            E.oblige('C03/lemma.no_action_loses_a_submitted_value[%s]' % name,
+                     z3.Implies(z3.And(inv(s), a, s['place'] != NONE_), t['place'] != NONE_))
+            E.oblige('C03/lemma.delivered_to_exactly_one_successful_call[%s]' % name,
+                     z3.Implies(z3.And(inv(s), a, s['place'] == DONE_), z3.And(t['place'] == DONE_, t['ok'] == s['ok'])))
+        # the barrier: wait() = join (nothing unfinished) then flag observed set; the put of a value submitted before
+        # the wait has run by then (per-thread FIFO of loop callbacks: stub), so it is not NONE / SCHED
+        E.oblige('C07/lemma.join_then_flag_set_implies_delivered',
+                 z3.Implies(z3.And(inv(s), s['u'] == 0, s['flag'], s['place'] != NONE_, s['place'] != SCHED),
+                            s['place'] == DONE_), props={'C07'})
+    E.run_paths(body)
+
+
+TASKS['buffer.lemmas'] = (t_lemmas, {'C03', 'C07'})
